@@ -22,8 +22,12 @@ class Table:
         self.d = {}; self.sym = []; self.meta = None
         Table._n += 1; self.id = Table._n
 class Func:
-    __slots__ = ("params", "body", "env", "name")
-    def __init__(self, params, body, env, name="?"): self.params, self.body, self.env, self.name = params, body, env, name
+    """closure: `caps` are the visibility horizons of the captured chain (a local declared after the function
+    was created is not in the function's scope, even in the same block)"""
+    __slots__ = ("params", "body", "env", "name", "caps")
+    def __init__(self, params, body, env, name="?"):
+        self.params, self.body, self.env, self.name = params, body, env, name
+        self.caps = [h for _, h in chain(env)]
 class Builtin:
     __slots__ = ("f", "name")
     def __init__(self, f, name): self.f, self.name = f, name
@@ -35,8 +39,37 @@ class Return(Exception):
     def __init__(self, vs): self.vs = vs
 
 class Env:
-    __slots__ = ("vars", "up")
-    def __init__(self, up): self.vars = {}; self.up = up
+    """one block activation. `idx[name]` = declaration index inside this block, `count` = locals declared so far.
+    `cap` (only on the root Env of a function activation) = horizons of the captured chain."""
+    __slots__ = ("vars", "up", "idx", "count", "cap")
+    def __init__(self, up, cap=None): self.vars = {}; self.up = up; self.idx = {}; self.count = 0; self.cap = cap
+    def declare(self, n, v):
+        self.vars[n] = v; self.idx[n] = self.count; self.count += 1
+
+
+def chain(env):
+    """(Env, horizon) pairs visible from env, innermost first"""
+    e = env; caps = None; k = 0
+    while e is not None:
+        if caps is None:
+            yield e, e.count
+            if e.cap is not None: caps = e.cap; k = 0
+        else:
+            yield e, caps[k]; k += 1
+        e = e.up
+
+
+def find_env(n, env):
+    e = env; caps = None; k = 0
+    while e is not None:
+        if caps is None:
+            if n in e.vars: return e
+            if e.cap is not None: caps = e.cap; k = 0
+        else:
+            if n in e.vars and e.idx[n] < caps[k]: return e
+            k += 1
+        e = e.up
+    return None
 
 
 def tname(v):
@@ -697,11 +730,11 @@ class Interp:
             if self.depth > 190:
                 self.depth -= 1; raise LuaError("stack overflow", "resource")
             try:
-                env = Env(f.env); vs = env.vars
+                env = Env(f.env, f.caps)
                 ps = f.params; n = len(args)
                 for i, p in enumerate(ps):
-                    if p == "...": vs["..."] = args[i:]; break
-                    vs[p] = args[i] if i < n else None
+                    if p == "...": env.declare("...", args[i:]); break
+                    env.declare(p, args[i] if i < n else None)
                 try: self.exec_block(f.body, env)
                 except Return as r: return r.vs
                 return []
@@ -719,11 +752,8 @@ class Interp:
 
     # ------------------------------------------------------------------ evaluation
     def lookup(self, n, env):
-        e = env
-        while e is not None:
-            vs = e.vars
-            if n in vs: return vs[n]
-            e = e.up
+        e = find_env(n, env)
+        if e is not None: return e.vars[n]
         v = self.G.d.get(n)
         if v is None and n[0] == "V" and n[1:].isdigit(): self.undeclared_reads.append(n)
         return v
@@ -809,17 +839,11 @@ class Interp:
             raise LuaError("attempt to call a %s value%s" % (tname(fn), what), "type")
         return self.call(fn, args)
     def _is_global(self, n, env):
-        e = env
-        while e is not None:
-            if n in e.vars: return False
-            e = e.up
-        return True
+        return find_env(n, env) is None
     def assign(self, t, v, env):
         if t[0] == "name":
-            n = t[1]; e = env
-            while e is not None:
-                if n in e.vars: e.vars[n] = v; return
-                e = e.up
+            n = t[1]; e = find_env(n, env)
+            if e is not None: e.vars[n] = v; return
             if n[0] == "V" and n[1:].isdigit(): self.global_writes[n] = self.global_writes.get(n, 0) + 1
             if v is None: self.G.d.pop(n, None)
             else: self.G.d[n] = v
@@ -828,7 +852,11 @@ class Interp:
         env = Env(up); i = 0; n = len(body)
         while i < n:
             try:
-                self.exec_stmt(body[i], env); i += 1
+                st = body[i]
+                # re-declaration of a name in the same block is a new variable: open a new scope segment
+                if (st[0] == "local" and any(nm in env.vars for nm in st[1])) or (st[0] == "localfn" and st[1] in env.vars):
+                    env = Env(env)
+                self.exec_stmt(st, env); i += 1
             except Goto as g:
                 idx = None
                 for j, s in enumerate(body):
@@ -842,7 +870,7 @@ class Interp:
                         elif s[0] == "localfn": keep.add(s[1])
                     env2 = Env(up)
                     for kname in keep:
-                        if kname in env.vars: env2.vars[kname] = env.vars[kname]
+                        if kname in env.vars: env2.declare(kname, env.vars[kname])
                     # closures that captured `env` keep it; statements after the label see fresh locals
                     if len(keep) == len(env.vars): env2 = env
                     env = env2
@@ -854,9 +882,9 @@ class Interp:
         if k == "local":
             es = s[2]; names = s[1]
             if len(es) == 1 and len(names) == 1 and es[0][0] not in ("call", "vararg"):
-                env.vars[names[0]] = self.ev(es[0], env); return
+                env.declare(names[0], self.ev(es[0], env)); return
             vs = self.evlist(es, env)
-            for i, n in enumerate(names): env.vars[n] = vs[i] if i < len(vs) else None
+            for i, n in enumerate(names): env.declare(n, vs[i] if i < len(vs) else None)
         elif k == "callstmt": self.evcall(s[1], env)
         elif k == "assign":
             ts, es = s[1], s[2]
@@ -887,7 +915,7 @@ class Interp:
         elif k == "return": raise Return(self.evlist(s[1], env))
         elif k == "do": self.exec_block(s[1], env)
         elif k == "localfn":
-            env.vars[s[1]] = None; env.vars[s[1]] = Func(s[2][1], s[2][2], env, s[1])
+            env.declare(s[1], None); env.vars[s[1]] = Func(s[2][1], s[2][2], env, s[1])
         elif k == "break": raise Break()
         elif k == "goto": raise Goto(s[1])
         elif k == "label": pass
@@ -916,7 +944,7 @@ class Interp:
                 cond = self.lt(i, b, "__le") if c > 0 else self.lt(b, i, "__le")
                 if not self.decide_bool(cond): break
                 it += 1; self._loopcheck(it, d0)
-                e2 = Env(env); e2.vars[s[1]] = i
+                e2 = Env(env); e2.declare(s[1], i)
                 try: self.exec_block(s[5], e2)
                 except Break: break
                 i = self.arith("+", i, c)
@@ -928,7 +956,7 @@ class Interp:
                 if not rs or rs[0] is None: break
                 it += 1; self._loopcheck(it, d0)
                 ctl = rs[0]; e2 = Env(env)
-                for i, n in enumerate(s[1]): e2.vars[n] = rs[i] if i < len(rs) else None
+                for i, n in enumerate(s[1]): e2.declare(n, rs[i] if i < len(rs) else None)
                 try: self.exec_block(s[3], e2)
                 except Break: break
         else: raise LuaError("bad stmt " + k)
